@@ -55,15 +55,15 @@ type Server struct {
 
 // World is the whole simulated universe of one case.
 type World struct {
-	Mu      sync.Mutex
-	T0      time.Time
-	Servers map[string]*Server
-	Order   []string
-	Net     *Net
-	Events  []Event
-	Seq     int
-	Viol    []Violation
-	violSig map[string]bool
+	Mu         sync.Mutex
+	T0         time.Time
+	Servers    map[string]*Server
+	Order      []string
+	Net        *Net
+	Events     []Event
+	Seq        int
+	Viol       []Violation
+	violSig    map[string]bool
 	KeepEvents bool
 	MaxEvents  int
 
